@@ -8,10 +8,10 @@ from .common import run_control, generic_rules
 
 def analyse(ctx: CheckContext, p: Program):
     r = Resolver(p)
-    generic_rules(ctx, p, r, "C06")
+    ctx.guard(generic_rules, ctx, p, r, "C06")
     funcs = r.pipeline_cone()
-    bk.check_pinch_roles(ctx, p, r, funcs)
-    bk.check_symmetric_collapse(ctx, p, r, funcs)
+    ctx.guard(bk.check_pinch_roles, ctx, p, r, funcs)
+    ctx.guard(bk.check_symmetric_collapse, ctx, p, r, funcs)
 
 
 def run(ctx: CheckContext):
